@@ -130,6 +130,23 @@ macro_rules! flags_reg {
             if !only_this || writes.len() != 1 || *writes[0] != Ev::WriteCr($n as u8, expv) || !matches!(ev.first(), Some(Ev::ReadCr(..))) {
                 $t.bad($name, "update-is-not-read-modify-write", &format!("{} update old={:#x} toggle={:#x}", $name, old, tog), format!("{:x?}", ev));
             }
+            // update == read(); f(); write() also when the closure itself touches the register through the raw accessors
+            // (differential: both routes from the same prior content must leave the same register content)
+            for bit in [(!all) & (!all).wrapping_neg(), 1u64 << (63 - (!all).leading_zeros().min(63)), tog] {
+                if bit == 0 {
+                    continue;
+                }
+                cpu().$slot[$n] = old;
+                let _ = stepped(|| unsafe { $Reg::update(|f| { f.toggle($Flags::from_bits_truncate(tog)); $Reg::write_raw($Reg::read_raw() ^ bit) }) });
+                let via_update = cpu().$slot[$n];
+                cpu().$slot[$n] = old;
+                let _ = stepped(|| unsafe { let mut f = $Reg::read(); f.toggle($Flags::from_bits_truncate(tog)); $Reg::write_raw($Reg::read_raw() ^ bit); $Reg::write(f) });
+                let via_rmw = cpu().$slot[$n];
+                $t.r.ev(true);
+                if via_update != via_rmw {
+                    $t.bad($name, "update-differs-from-read-modify-write-when-the-closure-touches-the-register", &format!("{} update old={:#x} toggle={:#x} closure-xor={:#x}", $name, old, tog, bit), format!("{:#x} vs {:#x}", via_update, via_rmw));
+                }
+            }
             // raw write
             let (_, ev) = stepped(|| unsafe { $Reg::write_raw(!old) });
             $t.expect($name, &format!("{} write_raw {:#x}", $name, !old), &ev, &[Ev::WriteCr($n as u8, !old)]);
@@ -300,6 +317,19 @@ fn debug_regs(t: &mut T, a: &Args) {
         if writes.len() != 1 || *writes[0] != Ev::WriteDr(7, (old & !valid) | ((old & valid) ^ (1 << 13))) || !ev.iter().all(|e| matches!(e, Ev::ReadDr(7, _) | Ev::WriteDr(7, _))) {
             t.bad("Dr7", "update-is-not-read-modify-write", &format!("Dr7 update old={:#x}", old), format!("{:x?}", ev));
         }
+        for bit in [1u64 << 10, 1 << 12, 1 << 40, 1 << 13, 1 << 17] {
+            use x86_64::registers::debug::Dr7Flags;
+            cpu().dr[7] = old;
+            let _ = stepped(|| Dr7::update(|v| { v.toggle_flags(Dr7Flags::GENERAL_DETECT_ENABLE); Dr7::write_raw(Dr7::read_raw() ^ bit) }));
+            let via_update = cpu().dr[7];
+            cpu().dr[7] = old;
+            let _ = stepped(|| { let mut v = Dr7::read(); v.toggle_flags(Dr7Flags::GENERAL_DETECT_ENABLE); Dr7::write_raw(Dr7::read_raw() ^ bit); Dr7::write(v) });
+            let via_rmw = cpu().dr[7];
+            t.r.ev(true);
+            if via_update != via_rmw {
+                t.bad("Dr7", "update-differs-from-read-modify-write-when-the-closure-touches-the-register", &format!("Dr7 update old={:#x} closure-xor={:#x}", old, bit), format!("{:#x} vs {:#x}", via_update, via_rmw));
+            }
+        }
         let (_, ev) = stepped(|| Dr7::write_raw(!old));
         t.expect("Dr7", &format!("Dr7 write_raw {:#x}", !old), &ev, &[Ev::WriteDr(7, !old)]);
     }
@@ -396,6 +426,18 @@ fn xcr_and_msrs(t: &mut T, a: &Args) {
         t.r.ev(true);
         if writes.len() != 1 || *writes[0] != wr(MSR_EFER, (old & !eall) | ((old & eall) ^ (1 << 11))) || !ev.iter().all(|e| matches!(e, Ev::Rdmsr(MSR_EFER, _) | Ev::Wrmsr(MSR_EFER, ..))) {
             t.bad("Efer", "update-is-not-read-modify-write", &format!("Efer update old={:#x}", old), format!("{:x?}", ev));
+        }
+        for bit in [1u64 << 1, 1 << 9, 1 << 40, 1 << 11, 1 << 0] {
+            cpu().msr_set(MSR_EFER, old);
+            let _ = stepped(|| unsafe { Efer::update(|f| { f.toggle(EferFlags::NO_EXECUTE_ENABLE); Efer::write_raw(Efer::read_raw() ^ bit) }) });
+            let via_update = cpu().msr_get(MSR_EFER);
+            cpu().msr_set(MSR_EFER, old);
+            let _ = stepped(|| unsafe { let mut f = Efer::read(); f.toggle(EferFlags::NO_EXECUTE_ENABLE); Efer::write_raw(Efer::read_raw() ^ bit); Efer::write(f) });
+            let via_rmw = cpu().msr_get(MSR_EFER);
+            t.r.ev(true);
+            if via_update != via_rmw {
+                t.bad("Efer", "update-differs-from-read-modify-write-when-the-closure-touches-the-register", &format!("Efer update old={:#x} closure-xor={:#x}", old, bit), format!("{:#x} vs {:#x}", via_update, via_rmw));
+            }
         }
         let (_, ev) = stepped(|| unsafe { Efer::write_raw(!old) });
         t.expect("Efer", &format!("Efer write_raw {:#x}", !old), &ev, &[wr(MSR_EFER, !old)]);
